@@ -44,7 +44,7 @@ G(v) == [ok |-> TRUE, v |-> v]
 \* what the harness logs about a stream before touching it
 Snap(s) == [sid |-> s.sid, name |-> s.name, uo |-> s.uo, fresh |-> s.nread = 0, quiet |-> s.pending = 0,
             opened |-> FALSE, awaited |-> FALSE, timeout |-> FALSE, ended |-> IF s.dead THEN "EOF" ELSE "", vopen |-> s.vopen, msgs |-> <<>>,
-            mask |-> M(TRUE, <<>>), sub |-> Zero]
+            mask |-> s.mask, sub |-> Zero, psub |-> Zero, rsub |-> Zero]
 
 \* the harness waits for a change carrying want: it reads the queue up to and including the first such change
 FirstIdx(q, want) == IF \E k \in 1..Len(q) : q[k].v = want
@@ -83,21 +83,30 @@ Update(x, m, reject, r, echo, inter, interOld) ==
       LET changed == r # reg
           resp == IF mut = "response-is-request" THEN x ELSE r
           seenChanged == resp # reg      \* what the client takes for "the update changed the value"
-          emit(s) == LET nm == IF mut = "constant-name" THEN "a" ELSE s.name IN
+          \* what stream j is sent: the value through its own read mask; the seeded defect filters one shared
+          \* event in place, so stream j gets it through the masks of the streams before it as well
+          RECURSIVE Through(_, _)
+          Through(val, j) == IF j = 0 THEN val ELSE Project(Through(val, j - 1), streams[j].mask, Zero)
+          Pj(val, j) == IF mut = "shared-event-filtered-in-place" THEN Through(val, j) ELSE Project(val, streams[j].mask, Zero)
+          emit(j) == LET s == streams[j]
+                         nm == IF mut = "constant-name" THEN "a" ELSE s.name IN
                      IF mut = "no-stream-events" \/ s.dead THEN <<>>
-                     ELSE IF changed THEN (IF inter THEN <<[name |-> nm, v |-> IF interOld THEN reg ELSE Other(reg, r), ct |-> "after-open"]>> ELSE <<>>)
-                                          \o <<[name |-> nm, v |-> r, ct |-> "after-open"]>>
-                     ELSE IF echo THEN <<[name |-> nm, v |-> r, ct |-> "after-open"]>> ELSE <<>>
-          fed == [j \in 1..Len(streams) |-> [streams[j] EXCEPT !.q = @ \o emit(streams[j])]]
-          aw  == [j \in 1..Len(streams) |-> Await(fed[j], resp)]
+                     ELSE IF changed THEN (IF inter THEN <<[name |-> nm, v |-> Pj(IF interOld THEN reg ELSE Other(reg, r), j), ct |-> "after-open"]>> ELSE <<>>)
+                                          \o <<[name |-> nm, v |-> Pj(r, j), ct |-> "after-open"]>>
+                     ELSE IF echo THEN <<[name |-> nm, v |-> Pj(r, j), ct |-> "after-open"]>> ELSE <<>>
+          fed == [j \in 1..Len(streams) |-> [streams[j] EXCEPT !.q = @ \o emit(j)]]
+          want(j) == Project(resp, streams[j].mask, Zero)
+          \* the client waits on a stream iff what the stream shows changes
+          need(j) == seenChanged /\ want(j) # Project(reg, streams[j].mask, Zero)
+          aw  == [j \in 1..Len(streams) |-> Await(fed[j], want(j))]
       IN
       /\ reg' = r
       /\ timer' = (IF timer = "armed" THEN (IF mut = "late-timer-overwrites" THEN "stale" ELSE "off") ELSE timer)
       /\ tv' = tv
       /\ streams' = [j \in 1..Len(streams) |->
-                       IF seenChanged THEN aw[j].next ELSE [fed[j] EXCEPT !.pending = @ + 1]]
+                       IF need(j) THEN aw[j].next ELSE [fed[j] EXCEPT !.pending = @ + 1]]
       /\ obs' = base @@ [code |-> "OK", resp |-> resp, post |-> G(r),
-                         streams |-> [j \in 1..Len(streams) |-> IF seenChanged THEN aw[j].snap ELSE Snap(streams[j])]]
+                         streams |-> [j \in 1..Len(streams) |-> IF need(j) THEN aw[j].snap ELSE Snap(streams[j])]]
 
 \* ---- Get --------------------------------------------------------------------
 Get(m) ==
@@ -108,10 +117,10 @@ Get(m) ==
              streams |-> [j \in 1..Len(streams) |-> Snap(streams[j])]]
 
 \* ---- OpenPull ---------------------------------------------------------------
-Open(uo, name, initName) ==
+Open(uo, name, initName, pm) ==
   LET sid == steps + 1
-      seed == IF (uo /\ mut # "ignores-updates-only") \/ mut = "no-initial-value" THEN <<>> ELSE <<[name |-> initName, v |-> reg, ct |-> "before-open"]>>
-      s0 == [sid |-> sid, name |-> name, uo |-> uo, nread |-> 0, pending |-> 0, vopen |-> reg, q |-> seed, dead |-> FALSE]
+      seed == IF (uo /\ mut # "ignores-updates-only") \/ mut = "no-initial-value" THEN <<>> ELSE <<[name |-> initName, v |-> Project(reg, pm, Zero), ct |-> "before-open"]>>
+      s0 == [sid |-> sid, name |-> name, uo |-> uo, nread |-> 0, pending |-> 0, vopen |-> reg, q |-> seed, dead |-> FALSE, mask |-> pm]
       \* the harness reads one message from a Pull that is not updates-only
       readOne == ~uo
       got == IF readOne /\ seed # <<>> THEN <<seed[1]>> ELSE <<>>
@@ -146,23 +155,24 @@ OtherRecord ==
 \* ---- timed behaviour ------------------------------------------------------------
 \* an Update carrying a duration: stores a start value r and will write w when the time is up
 TimedUpdate(r, w) ==
-  LET fed == [j \in 1..Len(streams) |->
-                [streams[j] EXCEPT !.q = IF streams[j].dead THEN @ ELSE @ \o <<[name |-> streams[j].name, v |-> r, ct |-> "after-open"]>>]]
-      aw  == [j \in 1..Len(streams) |-> Await(fed[j], r)]     \* the client consumes the update's own change
-      changed == r # reg
+  LET P(val, j) == Project(val, streams[j].mask, Zero)
+      fed == [j \in 1..Len(streams) |->
+                [streams[j] EXCEPT !.q = IF streams[j].dead THEN @ ELSE @ \o <<[name |-> streams[j].name, v |-> P(r, j), ct |-> "after-open"]>>]]
+      aw  == [j \in 1..Len(streams) |-> Await(fed[j], P(r, j))]     \* the client consumes the update's own change
+      need(j) == P(r, j) # P(reg, j)
   IN
   /\ timer = "off"
   /\ reg' = r /\ timer' = "armed" /\ tv' = w
-  /\ streams' = [j \in 1..Len(streams) |-> IF changed THEN aw[j].next ELSE [fed[j] EXCEPT !.pending = @ + 1]]
+  /\ streams' = [j \in 1..Len(streams) |-> IF need(j) THEN aw[j].next ELSE [fed[j] EXCEPT !.pending = @ + 1]]
   /\ obs' = [op |-> "TimedUpdate", pre |-> G(reg), post |-> G(r), code |-> "OK", mask |-> M(TRUE, <<>>), sub |-> Zero,
-             resp |-> r, streams |-> [j \in 1..Len(streams) |-> IF changed THEN aw[j].snap ELSE Snap(streams[j])]]
+             resp |-> r, streams |-> [j \in 1..Len(streams) |-> IF need(j) THEN aw[j].snap ELSE Snap(streams[j])]]
 
 \* time passes; the client then reads whatever arrived on the streams without waiting
 Wait ==
   LET fires == timer \in {"armed", "stale"}
       newreg == IF fires THEN tv ELSE reg
       fed == [j \in 1..Len(streams) |-> IF fires /\ ~streams[j].dead
-                                          THEN [streams[j] EXCEPT !.q = @ \o <<[name |-> streams[j].name, v |-> tv, ct |-> "after-open"]>>]
+                                          THEN [streams[j] EXCEPT !.q = @ \o <<[name |-> streams[j].name, v |-> Project(tv, streams[j].mask, Zero), ct |-> "after-open"]>>]
                                           ELSE streams[j]]
   IN
   /\ reg' = newreg /\ timer' = "off" /\ tv' = tv
@@ -181,7 +191,9 @@ Step ==
        /\ (inter => Cardinality(Vals) > 2)
        /\ Update(x, m, reject, r, echo, inter, interOld)
   \/ \E m \in Masks : Get(m)
-  \/ \E uo \in BOOLEAN, name \in Names, initName \in Names : (uo => initName = name) /\ Open(uo, name, initName)
+  \/ \E uo \in BOOLEAN, name \in Names, initName \in Names, pm \in {M(TRUE, <<>>), M(FALSE, <<1>>), M(FALSE, <<NF>>)} :
+       /\ (uo => initName = name) /\ (~pm.nil => name = "a" /\ initName = "a")      \* irrelevant combinations collapsed
+       /\ Open(uo, name, initName, pm)
   \/ \E i \in 1..2 : Close(i)
   \/ OtherRecord
   \/ TimedUpdate(Other(reg, reg), Other(reg, Other(reg, reg)))   \* one representative: start value # target # current
